@@ -442,8 +442,7 @@ def run(ctx):
 
 
 def replay(ctx, path):
-    import json
-    d = json.load(open(path))
-    print("replay: re-run `bin/vcheck C11 --tier %s`; failing path: %s" % (ctx.tier, d.get("key")))
-    exe = build.harness(*HARNESSES[0][0], **HARNESSES[0][1])
-    return 0
+    from core import replay_by_rerun
+    tier = "thorough" if os.path.basename(path).startswith("thorough") else "quick"
+    ctx.tier, ctx.quick = tier, tier == "quick"
+    return replay_by_rerun(run, ctx, path)
